@@ -83,12 +83,14 @@ class Packet:
         ep = ep[1:]
         dash = ep.find('-')
         attachment_count = 0
+        self.attachments_announced = False
         if dash > 0 and ep[0:dash].isdigit() and \
                 self.packet_type in (BINARY_EVENT, BINARY_ACK):
             # (only the binary packet types carry an attachment count)
             if dash > 10:
                 raise ValueError('too many attachments')
             attachment_count = int(ep[0:dash])
+            self.attachments_announced = True
             ep = ep[dash + 1:]
         if ep and ep[0:1] == '/':
             sep = ep.find(',')
